@@ -281,7 +281,7 @@ class Check:
                 status = 2
                 continue
             nviol += len(lst)
-            path = os.path.join(VERIF, "replays", self.pid, sanitize(f["key"]) + ".json")
+            path = os.path.join(os.environ.get("VERIF_REPLAY_DIR", os.path.join(VERIF, "replays")), self.pid, sanitize(f["key"]) + ".json")
             os.makedirs(os.path.dirname(path), exist_ok=True)
             with open(path, "w") as fh:
                 json.dump(
@@ -348,8 +348,9 @@ class Check:
             "wall_s": round(time.time() - self.t0, 3),
             "violations": int(nviol),
         }
-        os.makedirs(os.path.join(VERIF, "evidence"), exist_ok=True)
-        path = os.path.join(VERIF, "evidence", f"{self.pid}.json")
+        evdir = os.environ.get("VERIF_EVIDENCE_DIR", os.path.join(VERIF, "evidence"))
+        os.makedirs(evdir, exist_ok=True)
+        path = os.path.join(evdir, f"{self.pid}.json")
         tmp = path + ".tmp"
         with open(tmp, "w") as fh:
             json.dump(ev, fh, indent=1)
